@@ -93,6 +93,9 @@ func fileFixtures(r *rand.Rand, thorough bool) []*fileFixture {
 			hand(o, 43)
 		}
 	}
+	// interior nodes of UnixFS type Raw (with sizes): over dag-pb leaves and over raw leaves
+	hand(handFileOpts{Width: 3, PBLeaves: true, LeafType: 2, InteriorRaw: true}, 47)
+	hand(handFileOpts{Width: 2, PBLeaves: false, InteriorRaw: true}, 38)
 	{
 		// an empty chunk in the middle (declared block size 0)
 		st := store.New()
@@ -306,20 +309,28 @@ func runHistory(c *mon.Case, f *fileFixture, nReaders, steps int) {
 			var err error
 			var got []byte
 			want := 1 + r.Intn(int(l)+3)
-			full := r.Intn(2) == 0
+			mode := r.Intn(3)
+			full := mode == 0
 			step := fmt.Sprintf("r%d.ReadFull(%d)", ri, want)
-			if !full {
+			if mode == 1 {
 				step = fmt.Sprintf("r%d.ReadAll()", ri)
+			} else if mode == 2 {
+				step = fmt.Sprintf("r%d.io.Copy()", ri) // uses io.WriterTo when the reader offers it
 			}
 			hasRead = true
 			if !c.Guard(step, func() {
-				if full {
+				switch mode {
+				case 0:
 					buf := make([]byte, want)
 					var n int
 					n, err = io.ReadFull(rd, buf)
 					got = buf[:n]
-				} else {
+				case 1:
 					got, err = io.ReadAll(rd)
+				default:
+					var bb bytes.Buffer
+					_, err = io.Copy(&bb, rd)
+					got = bb.Bytes()
 				}
 			}) {
 				return
@@ -380,6 +391,10 @@ func checkRead(fail func(key, format string, args ...any), f *fileFixture, m *rs
 			// writing scratch data beyond n is allowed by io.Reader; not judged
 			break
 		}
+	}
+	if k == 0 && err == io.EOF && len(avail) > 0 {
+		fail("C04|early-eof", "Read of an empty buffer at position %d reported EOF although %d bytes remain", m.pos, len(avail))
+		return false
 	}
 	if k >= 1 {
 		if len(avail) == 0 {
